@@ -439,12 +439,17 @@ class JobResult:
         self.complete = True
         self.leftover = []
         self.errors = []
+        self.xc = dict(checked=0, agree=0, inconclusive=0, seconds=0.0)   # second-opinion solver runs on discharged obligations
+        self.xc_disagree = []
 
     def merge(self, o):
         for k in ('paths', 'forks', 'checks', 'solver_s', 'obligations', 'discharged', 'sat', 'unknown', 'xval_ok',
                   'xval_inexact', 'xval_skipped', 'budget', 'wall'):
             setattr(self, k, getattr(self, k) + getattr(o, k))
         self.xval_bad += o.xval_bad
+        for k in self.xc:
+            self.xc[k] += o.xc[k]
+        self.xc_disagree += o.xc_disagree
         self.exc_msgs = (self.exc_msgs + o.exc_msgs)[:4]
         self.violations += o.violations
         self.unconfirmed += o.unconfirmed
@@ -458,6 +463,9 @@ class JobResult:
         self.samples = (self.samples + o.samples)[:3]
         self.complete = self.complete and o.complete
         self.errors += o.errors
+
+
+CROSSCHECK = False
 
 
 def _is_real(t):
@@ -540,6 +548,7 @@ class Runner:
             res.discharged += 1
             st[1] += 1
             rec[2] = True
+            self._second_opinion(ctx, neg, site)
             return
         res.sat += 1
         # witness: try lattice first, then any model
@@ -571,6 +580,43 @@ class Runner:
                                            job=self.job.name, prop=self.job.prop, note="perturbed solver witness"))
                 return
         res.unconfirmed.append(dict(site=site, inputs=to_json(tried[-1]) if tried else None, job=self.job.name))
+
+    # -- second opinion: a sample of the discharged (unsat) queries is re-decided by two other solver builds
+    XC_SOLVERS = (('z3-4.8.12', ['/usr/bin/z3', '-in', '-T:20']), ('cvc5-1.0', ['cvc5', '--lang=smt2', '--tlimit=20000']))
+
+    def _second_opinion(self, ctx, neg, site):
+        if not CROSSCHECK:
+            return
+        self._xc_seen = getattr(self, '_xc_seen', 0) + 1
+        # the first non-trivial discharged obligation of every run of a job, then every 250th
+        if self._xc_seen != 1 and self._xc_seen % 250:
+            return
+        import subprocess
+        s = ctx.solver
+        s.push()
+        try:
+            s.add(neg)
+            txt = s.to_smt2()
+        finally:
+            s.pop()
+        res = self.res
+        t0 = time.time()
+        res.xc['checked'] += 1
+        verdicts = {}
+        for nm, cmd in self.XC_SOLVERS:
+            try:
+                r = subprocess.run(cmd, input=txt, capture_output=True, text=True, timeout=40)
+                out = r.stdout.strip().splitlines()
+                verdicts[nm] = out[0].strip() if out and '(error' not in r.stdout else 'error'
+            except Exception as ex:
+                verdicts[nm] = 'error'
+        res.xc['seconds'] += time.time() - t0
+        if any(v == 'sat' for v in verdicts.values()):
+            res.xc_disagree.append(dict(site=site, job=self.job.name, verdicts=verdicts, smt2=txt))
+        elif any(v == 'unsat' for v in verdicts.values()):
+            res.xc['agree'] += 1
+        else:
+            res.xc['inconclusive'] += 1
 
     def _witness_models(self, ctx, extra=None):
         s = ctx.solver
